@@ -118,7 +118,15 @@ pub fn array_to_json(a: &ArrayImpl) -> Value {
     Value::Array((0..a.len()).map(|i| val_to_json(&a.get(i))).collect())
 }
 
+pub static LAST_PANIC_AT: std::sync::Mutex<String> = std::sync::Mutex::new(String::new());
+
 pub fn panic_msg(e: Box<dyn std::any::Any + Send>) -> String {
+    let at = LAST_PANIC_AT.lock().unwrap().clone();
+    let m = panic_msg0(e);
+    format!("{m} @ {at}")
+}
+
+fn panic_msg0(e: Box<dyn std::any::Any + Send>) -> String {
     if let Some(s) = e.downcast_ref::<String>() {
         s.clone()
     } else if let Some(s) = e.downcast_ref::<&str>() {
